@@ -8,6 +8,7 @@ def genFacts : Facts :=
     fromTextShape := Generated.c20FromTextShape
     getHandlerShape := Generated.c20GetHandlerShape
     sharedWrites := Generated.c20SharedWrites
+    mutableDefaults := Generated.c20MutableDefaults
     glomScope := Generated.c20GlomScope
     glomScopeRoot := Generated.c20GlomScopeRoot
     childScope := Generated.c20ChildScope
